@@ -545,7 +545,7 @@ fn status_of<T>(r: std::thread::Result<Result<T, fontc::Error>>) -> (String, Opt
 
 #[derive(Default)]
 struct Audit {
-    /// (id description, kind, path, read-back equals memory); kind: "kern" | "post" | "empty-glyph" | ""
+    /// (id description, kind, path, read-back equals memory); kind: "kern" | "post" | "empty-glyph" | "fvar" | ""
     items: Vec<(String, &'static str, PathBuf, Option<bool>)>,
 }
 
@@ -629,7 +629,7 @@ fn audit(dir: &Path, fe: &FeContext, be: &BeContext) -> Audit {
     be_table!(cmap, BeId::Cmap, "");
     be_table!(colr, BeId::Colr, "");
     be_table!(cpal, BeId::Cpal, "");
-    be_table!(fvar, BeId::Fvar, "");
+    be_table!(fvar, BeId::Fvar, "fvar");
     be_table!(gasp, BeId::Gasp, "");
     be_item!(glyf, BeId::Glyf);
     be_table!(gsub, BeId::Gsub, "");
@@ -679,9 +679,9 @@ fn audit(dir: &Path, fe: &FeContext, be: &BeContext) -> Audit {
     }
     for (id, v) in be.gvar_fragments.all() {
         if let AnyWorkId::Be(bid) = &id {
-            // no PartialEq: compare the Debug rendering (all fields, f64 printed exactly enough to differ)
+            // no PartialEq on the struct: compare its two fields
             a.item_with(format!("{id:?}"), "", BeP::target_file(dir, bid), Some(v), |x: &fontbe::orchestration::GvarFragment, y| {
-                format!("{x:?}") == format!("{y:?}")
+                x.glyph_name == y.glyph_name && x.deltas == y.deltas
             });
         }
     }
@@ -762,6 +762,7 @@ fn emit_case(i: usize, sources: &[PathBuf]) -> Vec<S> {
     let differs_kern_shared = differs.iter().filter(|k| a.items[**k].1 == "kern" && shared.contains(k)).count();
     let differs_post = differs.iter().filter(|k| a.items[**k].1 == "post").count();
     let differs_empty_glyph = differs.iter().filter(|k| a.items[**k].1 == "empty-glyph").count();
+    let differs_fvar = differs.iter().filter(|k| a.items[**k].1 == "fvar").count();
     let mut files = vec![];
     walk_files(&ir_dir, &mut files);
     // `features.marker` is written by the FEA job itself (fontbe/src/features.rs), not through a context item
@@ -791,6 +792,7 @@ fn emit_case(i: usize, sources: &[PathBuf]) -> Vec<S> {
         S::k1("readback_differs_kern_shared", S::usize(differs_kern_shared)),
         S::k1("readback_differs_post", S::usize(differs_post)),
         S::k1("readback_differs_empty_glyph", S::usize(differs_empty_glyph)),
+        S::k1("readback_differs_fvar", S::usize(differs_fvar)),
         S::k1("notes", S::str(&notes.join("; "))),
     ]));
     fields
